@@ -84,15 +84,28 @@ def toy_sig(pk: int, d: int, v: int) -> int:
     return ((pk * 1048576 + d) * 8589934592 + v) * 2 + 1
 
 
+def det_key(rng):
+    """curve25519 key pair derived from the seeded PRNG (ed25519 signatures are deterministic too), so that node ids,
+    routing-table shapes and every byte on the wire are a function of VERIF_SEED"""
+    from ipv8.keyvault.crypto import default_eccrypto
+    return default_eccrypto.key_from_private_bin(b"LibNaCLSK:" + bytes(rng.getrandbits(8) for _ in range(64)))
+
+
+def det_node(rng, overlay_cls):
+    from ipv8.peer import Peer
+    from ipv8.test.mocking.ipv8 import MockIPv8
+    return MockIPv8(Peer(det_key(rng)), overlay_cls)
+
+
 class World:
     """keys, indices and the blob factory shared by parts B and C"""
 
-    def __init__(self, nkeys: int = 3):
+    def __init__(self, rng, nkeys: int = 3):
         from ipv8.keyvault.crypto import default_eccrypto
         from ipv8.messaging.serialization import default_serializer
         self.ec = default_eccrypto
         self.ser = default_serializer
-        self.keys = [default_eccrypto.generate_key("curve25519") for _ in range(nkeys)]
+        self.keys = [det_key(rng) for _ in range(nkeys)]
         self.pkb = [k.pub().key_to_bin() for k in self.keys]
         self.mid = [hashlib.sha1(p).digest() for p in self.pkb]
         self.h20, self.pks, self.datas, self.blobs = Idx(), Idx(), Idx(), Idx()
@@ -224,10 +237,10 @@ def rand_blob_spec(rng, nkeys=3, big=True):
         return ("str", rng.randrange(3), rng.choice([166, 167, 168, 169, 200]))
     if r < 0.66:
         return (rng.choice(["sig", "sig", "sig", "sig_junk"]), rng.randrange(nkeys), rng.randrange(4),
-                rng.choice([0, 1, 2, 2, 3, 5, 7]))
+                rng.choice([0, 1, 2, 2, 3, 5, 7] * 3 + [2 ** 32 - 2, 2 ** 32 - 1]))
     if r < 0.88:
         return (rng.choice(["sig_badsig", "sig_tamper", "sig_vtamper", "sig_claim"]), rng.randrange(nkeys),
-                rng.randrange(4), rng.choice([0, 1, 2, 3, 5, 7, 9]))
+                rng.randrange(4), rng.choice([0, 1, 2, 3, 5, 7, 9, 2 ** 31, 2 ** 32 - 1]))
     if r < 0.92:
         return ("unknown", rng.choice([2, 3, 255]))
     if r < 0.95:
@@ -506,10 +519,10 @@ class NodeRun:
         ctx = self.ctx
         loop = asyncio.get_running_loop()
         mep.internet.clear()
-        W = World()
+        W = World(ctx.rng)
         self.W = W
-        S = MockIPv8("curve25519", DHTDiscoveryCommunity)
-        S2 = MockIPv8("curve25519", DHTDiscoveryCommunity)
+        S = det_node(ctx.rng, DHTDiscoveryCommunity)
+        S2 = det_node(ctx.rng, DHTDiscoveryCommunity)
         for n in (S, S2):
             for tname in ("node_maintenance", "store_peer", "ping_all"):
                 n.overlay.cancel_pending_task(tname)
@@ -654,7 +667,7 @@ class NodeRun:
                 for _ in range(op[1]):
                     if sum(len(b.nodes) for b in rt.trie.values()) >= 19:
                         break
-                    key = W.ec.generate_key("curve25519").pub()
+                    key = det_key(ctx.rng).pub()
                     ip = "%d.%d.%d.%d" % tuple(_pyrandom.randrange(1, 255) for _ in range(4))
                     mep.internet[UDPv4Address(ip, 7000)] = sink   # a silent host: punctures sent to it vanish
                     rt.add(Node(key, UDPv4Address(ip, 7000)))
@@ -913,8 +926,8 @@ def part_c(ctx: Ctx, ncases: int, use_model: bool, seqs=None):
     async def go():
         from ipv8.dht.community import Crawl, DHTCommunity
         mep.internet.clear()
-        W = World()
-        node = MockIPv8("curve25519", DHTCommunity)
+        W = World(rng)
+        node = det_node(rng, DHTCommunity)
         for i in range(ncases):
             specs = seqs[i] if seqs else gen_pp_specs(rng)
             values = [W.blob(s) for s in specs]
@@ -954,6 +967,7 @@ def part_c(ctx: Ctx, ncases: int, use_model: bool, seqs=None):
         await node.stop()
         mep.internet.clear()
 
+    _pyrandom.seed(rng.getrandbits(64))
     try:
         run_in_vloop(go)
     finally:
@@ -979,8 +993,8 @@ def part_c_e2e(ctx: Ctx, ncases: int):
         from ipv8.dht.routing import Node
         for i in range(ncases):
             mep.internet.clear()
-            W = World()
-            nodes = [MockIPv8("curve25519", DHTCommunity) for _ in range(4)]
+            W = World(rng)
+            nodes = [det_node(rng, DHTCommunity) for _ in range(4)]
             for n in nodes:
                 n.overlay.cancel_pending_task("node_maintenance")
             client, servers = nodes[0], nodes[1:]
@@ -1037,6 +1051,147 @@ def part_c_e2e(ctx: Ctx, ncases: int):
 
 
 # ==================================================================================================================
+# Part D — the value codec at byte level (unserialize_value / serialize_value vs Ipv8/C15/Wire.lean)
+# ==================================================================================================================
+def ref_fields(b: bytes):
+    """(data, version, pk) of a SignedStrPayload at offset 1 per the documented wire format, or None"""
+    try:
+        (n,) = struct.unpack_from(">H", b, 1)
+        if 3 + n > len(b):
+            return None
+        data = b[3:3 + n]
+        (ver,) = struct.unpack_from(">I", b, 3 + n)
+        (m,) = struct.unpack_from(">H", b, 7 + n)
+        if 9 + n + m > len(b):
+            return None
+        return data, ver, b[9 + n:9 + n + m]
+    except struct.error:
+        return None
+
+
+def mutate_bytes(rng, b: bytes):
+    kind = rng.choice(["same", "trunc", "trunc_tail", "flip", "lenfield", "extend", "first", "random", "nosig"])
+    if kind == "trunc" and b:
+        return kind, b[:rng.randrange(len(b))]
+    if kind == "trunc_tail" and b:
+        return kind, b[:max(0, len(b) - rng.choice([1, 2, 63, 64, 65, 70, 100, 140]))]
+    if kind == "flip" and b:
+        i = rng.randrange(len(b))
+        return kind, b[:i] + bytes([b[i] ^ (1 << rng.randrange(8))]) + b[i + 1:]
+    if kind == "lenfield" and len(b) > 3:
+        i = rng.choice([1, 2])
+        return kind, b[:i] + bytes([rng.choice([0, 1, 2, 74, 255])]) + b[i + 1:]
+    if kind == "extend":
+        return kind, b + bytes(rng.getrandbits(8) for _ in range(rng.choice([1, 2, 64])))
+    if kind == "first" and b:
+        return kind, bytes([rng.choice([0, 1, 2, 255])]) + b[1:]
+    if kind == "random":
+        return kind, bytes([rng.choice([0, 1, 1, 1, 2])]) + bytes(rng.getrandbits(8) for _ in range(rng.choice([0, 1, 2, 5, 9, 40, 90])))
+    if kind == "nosig" and len(b) > 64:
+        return kind, b[:-64]
+    return "same", b
+
+
+def part_d(ctx: Ctx, ncases: int, use_model: bool):
+    import logging
+    from ipv8.test.mocking import endpoint as mep
+    logging.disable(logging.CRITICAL)
+    rng = ctx.rng
+    lines, impl = [], []
+
+    async def go():
+        from ipv8.dht.community import DHTCommunity
+        mep.internet.clear()
+        W = World(rng)
+        node = det_node(rng, DHTCommunity)
+        ov = node.overlay
+        ec = W.ec
+        loop = asyncio.get_running_loop()
+        for i in range(ncases):
+            base = W.blob(rand_blob_spec(rng))
+            kind, v = mutate_bytes(rng, base)
+            ctx.count("D.mut:" + kind)
+            try:
+                r = ov.unserialize_value(v)
+                if r is None:
+                    got = "none"
+                else:
+                    data, pk, ver = r
+                    got = f"ok {data.hex() or '-'} {'-' if pk is None else (pk.hex() or '-')} {ver}"
+            except Exception as e:
+                got = "raise"
+                ctx.count("D.unser:raise:" + type(e).__name__)
+                r = None
+            # what the abstract interface answers for the one key / message / signature this value can ask about
+            keyok, siglen, valid, q = 0, 64, 0, ""
+            f = ref_fields(v) if v[:1] == b"\x01" else None
+            if f is not None:
+                try:
+                    pub = ec.key_from_public_bin(f[2])
+                    keyok, siglen = 1, ec.get_signature_length(pub)
+                    valid = 1 if ec.is_valid_signature(pub, v[:-siglen], v[-siglen:]) else 0
+                except Exception:
+                    keyok = 0
+                q = f" q={f[2].hex() or '-'}:{len(v[:-siglen])}:{len(v[-siglen:])}"
+            # property on the implementation: a signed triple only for verifying values, fields as on the wire
+            if r is not None and r[1] is not None:
+                ctx.count("D.unser:ok-signed")
+                if f is None or not keyok or not valid or (r[0], r[2], r[1]) != f:
+                    ctx.oracle_fail("DHTCommunity.unserialize_value:unauthentic",
+                                    f"unserialize_value returns data {r[0]!r} as signed by {r[1][:14]!r}… although "
+                                    f"{'the fields do not parse' if f is None else 'the key does not parse' if not keyok else 'the signature does not verify' if not valid else 'the fields differ from the wire'}",
+                                    {"part": "D", "value": v.hex()})
+            elif r is not None:
+                ctx.count("D.unser:ok-plain")
+                if v[:1] != b"\x00" or r != (v[1:], None, 0):
+                    ctx.oracle_fail("DHTCommunity.unserialize_value:plain", "plain entry not returned as it is",
+                                    {"part": "D", "value": v.hex()})
+            elif got == "none":
+                ctx.count("D.unser:none" + (":badsig" if f is not None and keyok else ""))
+            lines.append(f"unserb {v.hex() or '-'} {keyok} {siglen} {valid}")
+            impl.append(got + q)
+            ctx.case(("D", v.hex()), kind != "same")
+            # the description handed to the abstract model (parts B, C) agrees with the real parser on unmutated blobs
+            if kind == "same":
+                w = W.truth[base]["wire"]
+                exp = ("raise" if w[0] == "m" else "none" if w[0] == "u" else
+                       f"ok {w[1].hex() or '-'} - 0" if w[0] == "s" else
+                       f"ok {w[1].hex() or '-'} {w[3].hex()} {w[2]}" if W.truth[base]["ok"] else "none")
+                if exp != got:
+                    ctx.disagree(f"part D: value {W.truth[base]['spec']} is described to the abstract model as `{exp}` "
+                                 f"but unserialize_value says `{got}`", {"part": "D", "value": v.hex()})
+            # serialize_value: byte-for-byte, and it reads back
+            if i % 10 == 0:
+                data = bytes(rng.getrandbits(8) for _ in range(rng.choice([0, 1, 5, 20])))
+                sv = ov.serialize_value(data, sign=True)
+                pkb = ov.my_peer.public_key.key_to_bin()
+                lines.append(f"serb {data.hex() or '-'} {int(loop.time())} {pkb.hex()} {sv[-64:].hex()}")
+                impl.append(sv.hex())
+                back = ov.unserialize_value(sv)
+                if back != (data, pkb, int(loop.time())):
+                    ctx.oracle_fail("DHTCommunity.serialize_value:roundtrip", "a freshly signed value does not read back",
+                                    {"part": "D", "data": data.hex()})
+                pv = ov.serialize_value(data, sign=False)
+                lines.append(f"serp {data.hex() or '-'}")
+                impl.append(pv.hex() or "-")
+                ctx.count("D.serialize")
+        await node.stop()
+        mep.internet.clear()
+
+    _pyrandom.seed(rng.getrandbits(64))
+    try:
+        run_in_vloop(go)
+    finally:
+        logging.disable(logging.NOTSET)
+    if use_model and lines:
+        replies = ctx.driver().batch(lines)
+        for ln, m, g in zip(lines, replies, impl):
+            if m != g:
+                ctx.disagree(f"part D: model {m!r} != implementation {g!r} on `{ln[:200]}`", {"part": "D", "line": ln})
+                break
+
+
+# ==================================================================================================================
 def run(ctx: Ctx):
     if ctx.replay_input is not None:
         return replay(ctx, ctx.replay_input)
@@ -1049,6 +1204,7 @@ def run(ctx: Ctx):
     part_b(ctx, ctx.scale(300, 2500), use_model)
     part_c(ctx, ctx.scale(1200, 10000), use_model)
     part_c_e2e(ctx, ctx.scale(40, 400))
+    part_d(ctx, ctx.scale(1500, 20000), use_model)
 
 
 def search(ctx: Ctx, reason: str):
@@ -1058,6 +1214,36 @@ def search(ctx: Ctx, reason: str):
     if not ctx.failures:
         part_c(ctx, 3000, False)
         part_c_e2e(ctx, 60)
+        part_d(ctx, 6000, False)
+
+
+def replay_value(ctx: Ctx, v: bytes):
+    def go_sync():
+        async def go():
+            from ipv8.dht.community import DHTCommunity
+            from ipv8.keyvault.crypto import default_eccrypto as ec
+            node = det_node(ctx.rng, DHTCommunity)
+            try:
+                r = node.overlay.unserialize_value(v)
+            except Exception as e:
+                r = None
+                print("replay: unserialize_value raised", type(e).__name__)
+            if r is not None and r[1] is not None:
+                f = ref_fields(v)
+                good = False
+                if f is not None and (r[0], r[2], r[1]) == f:
+                    try:
+                        pub = ec.key_from_public_bin(f[2])
+                        n = ec.get_signature_length(pub)
+                        good = ec.is_valid_signature(pub, v[:-n], v[-n:])
+                    except Exception:
+                        good = False
+                if not good:
+                    ctx.oracle_fail("DHTCommunity.unserialize_value:unauthentic", "replayed value still accepted", {"part": "D", "value": v.hex()})
+            await node.stop()
+        run_in_vloop(go)
+    go_sync()
+    ctx.case(("replay",), True)
 
 
 def _tuplify(x):
@@ -1076,6 +1262,8 @@ def replay(ctx: Ctx, rec: dict):
         part_b(ctx, 1, ctx.model_ok, seqs=[[_tuplify(o) for o in r["ops"]]])
     elif part == "C" and "specs" in r:
         part_c(ctx, 1, ctx.model_ok, seqs=[[_tuplify(o) for o in r["specs"]]])
+    elif part == "D" and "value" in r:
+        replay_value(ctx, bytes.fromhex(r["value"]))
     else:
         print("replay: this record has no re-runnable input")
         return
